@@ -168,7 +168,8 @@ def version_tags(F, S):
     ex = eng.analyze(rv, frozenset()) or frozenset()
     same = any(f[0] == "==" and P(rv, 1) in (f[1], f[2]) for f in ex)
     inst = M + "::ReadVersionTag#checks"
-    if ("ev", "called", M + "::CheckMinVersionTag") in ex and same:
+    from ..rules_valid import validated
+    if validated(F, rv, ex, M + "::CheckMinVersionTag") and same:
         out.append(ok("R-MUSTCALL", inst, rv.loc(rv.body), rv.qn, "each later tag passes the minimum check and equals the header's tag", "both refusals on every returning path"))
     else:
         out.append(bad("R-MUSTCALL", inst, rv.loc(rv.body), rv.qn, "each later tag passes the minimum check and equals the header's tag", "missing"))
@@ -176,7 +177,7 @@ def version_tags(F, S):
     eng = Engine(F, S)
     ex = eng.analyze(rb, frozenset()) or frozenset()
     inst = M + "::ReadMapBeginning#header-tag"
-    if ("ev", "called", M + "::CheckMinVersionTag") in ex:
+    if validated(F, rb, ex, M + "::CheckMinVersionTag"):
         out.append(ok("R-MUSTCALL", inst, rb.loc(rb.body), rb.qn, "the header's version tag passes the minimum check", "on every returning path"))
     else:
         out.append(bad("R-MUSTCALL", inst, rb.loc(rb.body), rb.qn, "the header's version tag passes the minimum check", "missing"))
